@@ -477,13 +477,13 @@ func TestCheck(t *testing.T) {
 			r.Floor("seq_ops", int64(nSeq)*15)
 			r.Floor("seq_resolves", int64(nSeq)*8)
 			r.Floor("seq_served_from_cache_within_ttl", int64(nSeq)*3)
-			r.Floor("seq_refetch_at_exact_expiry", int64(nSeq)/4)
+			r.Floor("seq_refetch_at_exact_expiry", int64(nSeq)/6)
 			r.Floor("seq_served_one_second_before_expiry", int64(nSeq)/4)
 			r.Floor("seq_ttl0_only_lookups", int64(nSeq)/4)
 			r.Floor("seq_ttl0_mixed_lookups", int64(nSeq)/2)
 			r.Floor("seq_ttl0_mixed_zero_not_last_lookups", int64(nSeq)/6)
 			r.Floor("seq_failed_resolves", int64(nSeq)/2)
-			r.Floor("seq_resolves_after_recovery", int64(nSeq)/4)
+			r.Floor("seq_resolves_after_recovery", int64(nSeq)/6)
 			r.Floor("seq_failing_upstream_served_from_cache", int64(nSeq)/20)
 			r.Floor("seq_old_version_served_within_ttl", int64(nSeq)/3)
 			r.Floor("seq_clock_steps_during_query", int64(nSeq)/5)
@@ -493,12 +493,15 @@ func TestCheck(t *testing.T) {
 			r.Floor("conc_calls", int64(nConc)*40)
 			r.Floor("conc_partitions_linearizable", int64(nConc)*3)
 			r.Floor("conc_calls_overlapping_same_name", int64(nConc)*20)
-			r.Floor("conc_held_queries", int64(nConc)*2)
+			r.Floor("conc_held_queries", int64(nConc)*3/2)
+			r.Floor("conc_keys_cached_at_phase_start", int64(nConc))
+			r.Floor("conc_keys_expired_at_phase_start", int64(nConc)*2)
+			r.Floor("conc_ttl0_key_phases", int64(nConc))
 			r.Floor("conc_calls_in_flight_at_release", int64(nConc)*4)
 			r.Floor("conc_error_calls", int64(nConc))
 			r.Floor("conc_calls_overlapping_error", int64(nConc))
 			r.Floor("conc_midphase_zone_changes", int64(nConc)/2)
-			r.Floor("conc_old_and_new_version_in_one_phase", int64(nConc)/6)
+			r.Floor("conc_old_and_new_version_in_one_phase", int64(nConc)/3)
 			r.Floor("targets_yielded", int64(nConc)*40)
 		}
 	} else {
@@ -526,6 +529,8 @@ func TestCheck(t *testing.T) {
 			r.Floor("https_records_with_spare_alpn_capacity", int64(nRace)*10)
 			r.Floor("own_copy_mutations", int64(nRace)*20)
 			r.Floor("conc_partitions_linearizable", int64(nRace)*3)
+			r.Floor("conc_held_queries", int64(nRace)*3/2)
+			r.Floor("conc_error_calls", int64(nRace))
 		}
 	}
 	hist := map[string]int64{}
@@ -538,6 +543,9 @@ func TestCheck(t *testing.T) {
 	overlapShape.Range(func(_, _ any) bool { shapes++; return true })
 	r.Extra("calls_by_number_of_overlapping_calls_on_the_same_name", hist)
 	r.Count("conc_overlap_shapes", int64(shapes)) // distinct (phase kind, overlap degree, overlapped a failing call)
+	if !r.Replaying() {
+		r.Floor("conc_overlap_shapes", 40)
+	}
 	r.Extra("clock_reads", clockReads.Load())
 	if n := unboundReads.Load(); n > 0 {
 		r.Inconclusive("monitor: %d clock reads came from goroutines that no history had bound to a virtual clock", n)
